@@ -160,7 +160,13 @@ func TestC09Tail(t *testing.T) {
 		P := optsOnly(2)
 		kind := intn(rt, 4, "tkind")
 		T := tailPattern(kind)
-		astDD := &Node{Kind: KSeq, Kids: []*Node{P, {Kind: KDD}, T}}
+		// the spec-level -- is mandatory ("P -- T") or optional ("P [--] T"): in both cases it is what lets the tail's
+		// dash-prefixed tokens through
+		ddNode := &Node{Kind: KDD}
+		if chance(rt, 1, 3, "optionaldd") {
+			ddNode = &Node{Kind: KOptional, Kids: []*Node{{Kind: KDD}}}
+		}
+		astDD := &Node{Kind: KSeq, Kids: []*Node{P, ddNode, T}}
 		astPlain := &Node{Kind: KSeq, Kids: []*Node{P, T}}
 		c := &MetaCase{Program: Program{D: d, AST: astDD, SpecStr: astDD.Render(d)}, ASTB: astPlain, SpecB: astPlain.Render(d), TKind: kind}
 		c.A = Spell(rt, d, SampleItems(rt, d, P, GenCfg{}))
@@ -169,6 +175,12 @@ func TestC09Tail(t *testing.T) {
 			n = 2
 		}
 		explicit := chance(rt, 1, 3, "explicit")
+		optionalDD := ddNode.Kind == KOptional
+		if optionalDD {
+			// with "[--]" a "--" on the command line could equally be the command line's own end-of-options marker
+			// (bound to nothing) on the derivation that skips the spec's: keep such tails "--"-free
+			explicit = false
+		}
 		var tail []string
 		if explicit {
 			tail = append(tail, "--")
@@ -179,6 +191,9 @@ func TestC09Tail(t *testing.T) {
 				continue
 			}
 			tk := rapid.SampledFrom(tailPool).Draw(rt, "tk")
+			if optionalDD && tk == "--" {
+				tk = "-x"
+			}
 			if explicit && chance(rt, 1, 8, "helpdata") {
 				tk = rapid.SampledFrom([]string{"-h", "--help"}).Draw(rt, "h")
 			}
